@@ -912,7 +912,22 @@ def c16(ix: Index) -> None:
                     return False
                 root = ix.driver_chain(h['seq'])[-1]
                 return isinstance(root, str) and root.startswith('R') and root != f"R{c['bus']}"
-            mech = 'F20' if all(f20(h) for h in late) else None
+            def f16(h):
+                # the processing hangs below two sibling handlers of one event on a parallel_handlers bus that were both inside an
+                # await (two concurrent inline drains): stop()'s cancellation travels down ONE of them at a time
+                p = ix.procs.get(h['pid'])
+                if p is None or p['b']['seq'] > ret['seq']:
+                    return False
+                for i in ix.driver_chain(h['seq'])[1:]:
+                    if isinstance(i, int) and i in ix.inv and ix.par[ix.inv[i]['bus']]:
+                        me = ix.inv[i]
+                        sibs = [j for j, q in ix.inv.items() if j != i and q['ev'] == me['ev'] and q['bus'] == me['bus']]
+                        mine = [a for a in ix.awaits if a['by'] == i]
+                        for a in ix.awaits:
+                            if a['by'] in sibs and any(a['b']['seq'] < (m['e']['seq'] if m['e'] else ix.end_seq) and m['b']['seq'] < (a['e']['seq'] if a['e'] else ix.end_seq) for m in mine):
+                                return True
+                return False
+            mech = 'F20' if all(f20(h) for h in late) else ('F16' if all(f16(h) or f20(h) for h in late) else None)
             ix.v('C16', 'handler-started-after-stop', mech, bus=c['bus'], n=len(late), first={'ev': late[0]['ev'], 'h': late[0]['h'], 'pid': late[0]['pid'],
                  'drv': ix.procs[late[0]['pid']]['b']['drv'] if late[0]['pid'] in ix.procs else None}, stop_ret=ret['seq'])
     if calls and ix.meta.get('hang') in ('livelock', 'steps'):
